@@ -39,7 +39,13 @@ func init() {
 		// external incentive windows
 		h := w.Height
 		w.Step(5, w.Tx(u[3], &mctypes.MsgAddExternalIncentive{Sender: u[3].S(), RewardDenom: "uatom", PoolId: 2, FromBlock: h + 5, ToBlock: h + 5 + int64(n/3), AmountPerBlock: math.NewInt(1_000_000)}),
-			w.Tx(u[4], &mctypes.MsgAddExternalIncentive{Sender: u[4].S(), RewardDenom: "uelys", PoolId: 1, FromBlock: h + 20, ToBlock: h + 20 + int64(n/2), AmountPerBlock: math.NewInt(777_777)}))
+			w.Tx(u[4], &mctypes.MsgAddExternalIncentive{Sender: u[4].S(), RewardDenom: "uelys", PoolId: 1, FromBlock: h + 20, ToBlock: h + 20 + int64(n/2), AmountPerBlock: math.NewInt(777_777)}),
+			// shorter incentives in the other denom on the same pools, created later (higher id) but
+			// starting EARLIER than, and ending before, the long ones: when the long incentive starts
+			// its pool is already paying another denom, for a while two reward denoms of one pool are
+			// paid in the same blocks, and providers come and go throughout
+			w.Tx(u[5], &mctypes.MsgAddExternalIncentive{Sender: u[5].S(), RewardDenom: "uelys", PoolId: 2, FromBlock: h + 2, ToBlock: h + 2 + 22, AmountPerBlock: math.NewInt(333_333)}),
+			w.Tx(u[6], &mctypes.MsgAddExternalIncentive{Sender: u[6].S(), RewardDenom: "uatom", PoolId: 1, FromBlock: h + 10, ToBlock: h + 10 + 25, AmountPerBlock: math.NewInt(444_444)}))
 		g.Free(n/2, g.StdDt)
 		// late joiner one block before a distribution, then leaves right after
 		late := u[11]
